@@ -64,7 +64,9 @@ func init() {
 		}
 		f, ok := in.vfs()[name]
 		if !ok || !f.exists {
-			return tuple{(*value)(nil), in.pathError("open", name, "no such file or directory")}
+			e := in.pathError("open", name, "no such file or directory")
+			in.path.notExistErrs = append(in.path.notExistErrs, e.(iface).v.(*value))
+			return tuple{(*value)(nil), e}
 		}
 		f.opens++
 		t := in.findType("os", "File")
